@@ -49,7 +49,9 @@ func main() {
 		}
 		return
 	}
-	log.ReplaceGlobals(zap.NewNop(), &log.ZapProperties{})
+	if os.Getenv("HUB_LOG") == "" {
+		log.ReplaceGlobals(zap.NewNop(), &log.ZapProperties{})
+	}
 	util.EnableFailpoints()
 	// back-off budgets are consumed without sleeping; a store stays "reachable" after a transport error (the liveness probe
 	// would otherwise dial the mock store's address over real gRPC and keep the store blacklisted on a wall-clock timer)
